@@ -14,6 +14,7 @@ from typing import (
     cast,
 )
 
+import narwhals.stable.v1 as nw
 import numpy
 import pandas
 import scipy.sparse as spsparse
@@ -22,6 +23,7 @@ from interface_meta import InterfaceMeta
 
 from formulaic.errors import DataMismatchWarning
 from formulaic.materializers.types import FactorValues
+from formulaic.utils.cast import narwhals_series_to_pandas
 from formulaic.utils.null_handling import drop_rows as drop_nulls
 from formulaic.utils.sentinels import UNSET
 from formulaic.utils.sparse import categorical_encode_series_to_sparse_csc_matrix
@@ -71,9 +73,12 @@ def C(
         model_spec: ModelSpec,
     ) -> FactorValues:
         # wrapped numpy arrays are problematic
-        values = pandas.Series(
-            values.__wrapped__ if isinstance(values, FactorValues) else values
-        )
+        if isinstance(values, FactorValues):
+            values = values.__wrapped__
+        if nw.dependencies.is_narwhals_series(values):
+            # iterating a narwhals series would lose its declared categories
+            values = narwhals_series_to_pandas(values)
+        values = pandas.Series(values)
         values = drop_nulls(values, drop_rows)  # positional; index labels may repeat
         return encode_contrasts(
             values,
